@@ -12,7 +12,12 @@ import (
 // second pair shares the high nibble, which reaches the known quirks of the in-memory trie),
 // bit 1 = child-trie keys are the same strings as the main keys (0) or prefixed by 0x4b (1).
 // Streams: general (nested transactions, every op), alias (no transaction, equal values in
-// different child tries), region (keys and prefixes at and below `:child_storage:default:`).
+// different child tries), region (no transaction, keys and prefixes at and below
+// `:child_storage:default:`).  Wherever the result of applyToTrie depends on Go's map iteration
+// order the implementation is not deterministic and no model can follow it; the generator keeps
+// transactions away from those regions: the shared-high-nibble alphabet and empty keys in writes
+// (trie quirk: Delete of a key that ends on arrival at a node deletes that node), equal contents
+// in two child tries (the trie keys child tries by root hash) and writes to child-root keys.
 
 type c08G struct {
 	r       *vhRng
@@ -22,7 +27,11 @@ type c08G struct {
 	alias   bool
 	depth   int
 	maxDeep int
+	live    [][]byte // child tries written so far
 }
+
+// noTx = the case never opens a transaction
+func (g *c08G) noTx() bool { return g.maxDeep == 0 }
 
 func (g *c08G) mainKey() []byte {
 	x, y := g.x, g.y
@@ -50,7 +59,7 @@ func (g *c08G) mainKey() []byte {
 	case 13:
 		return []byte{x, y, x}
 	case 14:
-		if g.r.Chance(1, 3) {
+		if g.noTx() && g.r.Chance(1, 3) {
 			return []byte{}
 		}
 		return []byte{y, y}
@@ -81,31 +90,48 @@ func (g *c08G) prefix() []byte {
 	case 6, 7:
 		return []byte{y}
 	case 8:
-		return []byte{}
+		// the empty prefix covers the child-root keys: only without transactions
+		if g.noTx() && g.r.Chance(1, 2) {
+			return []byte{}
+		}
+		return []byte{x, y, x}
 	default:
 		return []byte{y, x}
 	}
 }
 
 // childKey returns the key of a child trie and a value tag that differs per child, so that two
-// child tries never have the same content (except in the alias stream).
-func (g *c08G) childKey() ([]byte, byte) {
+// child tries never have the same content (except in the alias stream).  With fresh = false a
+// child that was written before is preferred.
+func (g *c08G) childKey(fresh bool) ([]byte, byte) {
 	x, y := g.x, g.y
 	var k []byte
-	var tag byte
-	switch g.r.Intn(6) {
-	case 0, 1, 2:
-		k, tag = []byte{x}, 0xa0
-	case 3, 4:
-		k, tag = []byte{x, y}, 0xb0
-	default:
-		k, tag = []byte{y}, 0xc0
+	if !fresh && len(g.live) > 0 && g.r.Chance(5, 6) {
+		k = g.live[g.r.Intn(len(g.live))]
+	} else {
+		switch g.r.Intn(6) {
+		case 0, 1, 2:
+			k = []byte{x}
+		case 3, 4:
+			k = []byte{x, y}
+		default:
+			k = []byte{y}
+		}
+		if g.sep {
+			k = append([]byte{0x4b}, k...)
+		}
 	}
-	if g.sep {
-		k = append([]byte{0x4b}, k...)
+	tag := byte(0xa0)
+	if !g.alias {
+		switch {
+		case len(k) > 0 && k[len(k)-1] == y && len(k) > 1 && k[len(k)-2] == x:
+			tag = 0xb0
+		case len(k) > 0 && k[len(k)-1] == y:
+			tag = 0xc0
+		}
 	}
-	if g.alias {
-		tag = 0xa0
+	if fresh {
+		g.live = append(g.live, k)
 	}
 	return k, tag
 }
@@ -124,7 +150,7 @@ func (g *c08G) inKey() []byte {
 	case 10:
 		return []byte{x, y, x}
 	default:
-		if g.r.Chance(1, 3) {
+		if g.noTx() && g.r.Chance(1, 3) {
 			return []byte{}
 		}
 		return []byte{x, x}
@@ -132,11 +158,13 @@ func (g *c08G) inKey() []byte {
 }
 
 func (g *c08G) val(tag byte) string {
-	switch g.r.Intn(40) {
-	case 0:
-		return "nil"
-	case 1, 2:
-		return "-"
+	if tag == 0 || g.noTx() {
+		switch g.r.Intn(40) {
+		case 0:
+			return "nil"
+		case 1, 2:
+			return "-"
+		}
 	}
 	return vhHex([]byte{tag + byte(1+g.r.Intn(3))})
 }
@@ -161,7 +189,7 @@ func (g *c08G) op() string {
 	for {
 		switch w := r.Intn(100); {
 		case w < 9:
-			if g.alias || g.depth >= g.maxDeep {
+			if g.depth >= g.maxDeep {
 				continue
 			}
 			g.depth++
@@ -197,37 +225,55 @@ func (g *c08G) op() string {
 		case w < 48:
 			return "ents"
 		case w < 60:
-			c, tag := g.childKey()
+			c, tag := g.childKey(r.Chance(1, 2))
 			return "cput " + vhHex(c) + " " + vhHex(g.inKey()) + " " + g.val(tag)
 		case w < 64:
-			c, _ := g.childKey()
+			if len(g.live) == 0 && !r.Chance(1, 6) {
+				continue
+			}
+			c, _ := g.childKey(false)
 			return "cdel " + vhHex(c) + " " + vhHex(g.inKey())
 		case w < 67:
-			c, _ := g.childKey()
+			if (g.depth == 0 && !r.Chance(1, 3)) || (len(g.live) == 0 && !r.Chance(1, 6)) {
+				continue
+			}
+			c, _ := g.childKey(false)
 			return "cclr " + vhHex(c) + " " + vhHex(g.prefix())
 		case w < 71:
-			c, _ := g.childKey()
+			if (g.depth == 0 && !r.Chance(1, 3)) || (len(g.live) == 0 && !r.Chance(1, 6)) {
+				continue
+			}
+			c, _ := g.childKey(false)
 			return "cclrl " + vhHex(c) + " " + vhHex(g.prefix()) + " " + g.limit()
 		case w < 73:
-			c, _ := g.childKey()
+			c, _ := g.childKey(false)
 			return "cget " + vhHex(c) + " " + vhHex(g.inKey())
 		case w < 75:
-			c, _ := g.childKey()
+			c, _ := g.childKey(false)
 			return "cnext " + vhHex(c) + " " + vhHex(g.inKey())
 		case w < 78:
-			c, _ := g.childKey()
+			c, _ := g.childKey(false)
 			return "ckeys " + vhHex(c) + " " + vhHex(g.prefix())
 		case w < 81:
-			c, _ := g.childKey()
+			if len(g.live) == 0 && !r.Chance(1, 6) {
+				continue
+			}
+			c, _ := g.childKey(false)
 			return "kill " + vhHex(c)
 		case w < 85:
-			c, _ := g.childKey()
+			if len(g.live) == 0 && !r.Chance(1, 6) {
+				continue
+			}
+			c, _ := g.childKey(false)
 			if r.Chance(1, 3) {
 				return "killl " + vhHex(c) + " none"
 			}
+			if g.depth == 0 && !r.Chance(1, 3) {
+				continue
+			}
 			return "killl " + vhHex(c) + " " + g.limit()
 		case w < 86:
-			c, _ := g.childKey()
+			c, _ := g.childKey(false)
 			return "croot " + vhHex(c)
 		default:
 			return "snap"
@@ -241,7 +287,7 @@ func c08Gen(r *vhRng) string {
 	}
 	g := &c08G{r: r, x: 0x61, y: 0x71}
 	hdr := 0
-	if r.Chance(3, 10) {
+	if r.Chance(3, 20) {
 		g.y = 0x62
 		hdr |= 1
 	}
@@ -258,6 +304,9 @@ func c08Gen(r *vhRng) string {
 	g.maxDeep = 4
 	if r.Chance(1, 5) {
 		g.maxDeep = 8
+	}
+	if g.alias || g.region || hdr&1 == 1 {
+		g.maxDeep = 0
 	}
 	n := 2 + r.Intn(12)
 	if r.Chance(1, 3) {
